@@ -42,7 +42,7 @@ Proof. exact no_panic. Qed.
 Print Assumptions C17_no_abort.
 
 From Coq Require Import Lia.
-From Sge Require Import Gen.kernels Proofs.GenKernels Proofs.GenMint.
+From Sge Require Import Gen.kernels Proofs.GenParams Proofs.GenMint.
 (* the accepted parameter sets ARE what the Go validators accept: Params.Validate of x/mint (with validateBlocksPerYear, validatePhases,
    validateExcludeAmount, the "every phase lasts a block" loop) and of x/bet (validateBatchSettlementCount, validateMaxBetByUIDQueryCount,
    validateConstraints) are generated from the source on every run and proved equal to the model's predicates *)
